@@ -98,6 +98,18 @@ def correspond(ctx, schema, case, base, cfgs):
         fixed_literals(ctx)
     reqs = [{"op": "introspect", "schema": dump, "includeDeprecated": True},
             {"op": "introspect", "schema": dump, "includeDeprecated": False}]
+    # the Lean decoder + `norm` (Spec.LosslessStatement, executed): on the model's answer and on the REAL answer
+    la, ra = ctx.driver.ask([{"op": "lossless", "schema": dump}, {"op": "decodeReal", "data": base}])
+    ctx.count(2)
+    if la.get("depthOk"):
+        if la["decoded"] != la["norm"]:
+            p = L.first_diff(la["norm"], la["decoded"])
+            ctx.fail("corr:lossless-statement:model:" + L.diff_class(p or ""), "schemaOfIntrospection (introspect s true) differs from norm s at %s" % p,
+                     {"case": case, "path": p}, kind="correspondence")
+        if _sorted_members(ra["decoded"]) != _sorted_members(la["norm"]):
+            p = L.first_diff(_sorted_members(la["norm"]), _sorted_members(ra["decoded"]))
+            ctx.fail("corr:lossless-statement:real:" + L.diff_class(p or ""), "the Lean decoder applied to the REAL introspection result differs from norm s at %s" % p,
+                     {"case": case, "path": p, "impl": _at(_sorted_members(ra["decoded"]), p), "model": _at(_sorted_members(la["norm"]), p)}, kind="correspondence")
     names = sorted(schema.types)
     picks = [ctx.rng.choice(names) for _ in range(2)] + ["NoSuchType"]
     tq = [(n, b) for n in picks for b in (True, False)]
@@ -204,6 +216,16 @@ def correspond(ctx, schema, case, base, cfgs):
         if a.get("text") != want:
             ctx.fail("corr:printLitOf", "printLit(litOf ..) and print_ast(ast_node_from_value(..)) differ",
                      {"case": case, "where": where, "model": a.get("text"), "impl": want}, kind="correspondence")
+
+
+def _sorted_members(d):
+    """types / directives sorted by name, union members sorted (orders the statement does not fix)"""
+    d = json.loads(json.dumps(d))
+    d["types"].sort(key=lambda t: t["name"])
+    d["directives"].sort(key=lambda t: t["name"])
+    for t in d["types"]:
+        t["members"] = sorted(t["members"])
+    return d
 
 
 def _has_float(v):
